@@ -233,9 +233,21 @@ func runFront(c *fw.Ctx, d frontDesc) {
 			if i%3 == 2 {
 				cc = ""
 			}
+			if i%3 == 1 {
+				// runs of six guarantee a 3-byte-aligned triple: the standard base64 form contains '+' and '/'
+				// (the two symbols in which the standard and the URL alphabet differ)
+				cc = fmt.Sprintf(`{"custom":{"k":"v%d ~~~~~~ ?????? >>>>>>"},"u":"/p?x=1>>&y=~","n":%d}`, i, r.Intn(1000))
+			}
 			h := map[string]string{"X-Amzn-Trace-Id": fmt.Sprintf("Root=1-%08x-aaaa;Sampled=1", i)}
 			if cc != "" {
 				h["X-Amz-Client-Context"] = base64.StdEncoding.EncodeToString([]byte(cc))
+				if i%3 == 1 {
+					if !strings.Contains(h["X-Amz-Client-Context"], "+") || !strings.Contains(h["X-Amz-Client-Context"], "/") {
+						c.Inconclusive("harness: the symbol-rich client context does not encode to '+' and '/'")
+						return
+					}
+					c.Clause("front_client_context_symbols")
+				}
 			}
 			if i%2 == 1 || i >= 7 {
 				h["__chunked"] = "1"
